@@ -12,7 +12,7 @@ FELDMAN = ["feldman_hp_ht", "feldman_dhp_ht"]
 def seq_program(keys, h1, h2, erase=()):
     seth = ",".join("seth:%d:%d:%d" % (k, h1[k], h2[k]) for k in keys)
     ops = ["ins:%d" % k for k in keys] + ["era:%d" % k for k in erase] + ["find:%d" % k for k in keys] + ["size"]
-    return seth + ";" + ",".join(ops) + ";size"
+    return seth + ",audit;" + ",".join(ops) + ";size"
 
 
 def gen_tables(rng, nkeys, mode):
@@ -66,6 +66,17 @@ def run(ctx):
         progi = seq_program(keys, g1, g2, er)
         for v in HASHSETS + FELDMAN:
             jobs.append(Job("set_hash", v, progi if v in FELDMAN else prog, "seq", 1, 0, 1, group="repl" if ("iterable" in v or "feldman" in v) else "other"))
+    # 4. as many fully colliding keys as the two probe sets can hold (2 x probe-set size): every insert beyond the threshold relocates, the last
+    #    ones hit the "all probe sets full" roll-back branch of relocate(); nothing may be lost
+    for v, cap in (("cuckoo_striping_list_h3", 4), ("cuckoo_refinable_list_h3", 4), ("cuckoo_striping_list4_h3", 8)):
+        for ncoll in (cap - 1, cap):
+            for extra in (0, 3):
+                keys = list(range(1, ncoll + extra + 1)); rest = keys[ncoll:]
+                h1 = {k: (1 if k <= ncoll else 10 + k) for k in keys}; h2 = {k: (2 if k <= ncoll else 20 + k) for k in keys}
+                order = rest[:1] + keys[:ncoll] + rest[1:]
+                seth = ",".join("seth:%d:%d:%d" % (k, h1[k], h2[k]) for k in keys)
+                ops = ["ins:%d" % k for k in order] + ["find:%d" % k for k in keys] + ["size", "era:%d" % keys[0]] + ["find:%d" % k for k in keys] + ["size"]
+                jobs.append(Job("set_lock", v, seth + ",audit;" + ",".join(ops) + ";size", "seq", 1, 0, 1, group="cuckoo"))
     vlib.run_jobs(ctx, jobs)
     vlib.validate_histories(ctx, jobs, "LinSet", SC.consts(replace=False, ordered=False), group="cuckoo")
     vlib.validate_histories(ctx, jobs, "LinSet", SC.consts(replace=False, ordered=False), group="other")
